@@ -10,6 +10,7 @@ import (
 	"strings"
 	"time"
 
+	"github.com/virus-evolution/gofasta/pkg/encoding"
 	"github.com/virus-evolution/gofasta/pkg/fastaio"
 	"github.com/virus-evolution/gofasta/pkg/variants"
 
@@ -45,6 +46,18 @@ type c16Rec struct {
 	Idx           int
 	Score         int64
 	A, C, G, T    int
+}
+
+// decodeSeq decodes an encoded sequence in linear time (the repository's own
+// Decode concatenates strings and is quadratic in the sequence length).
+var c16DA = encoding.MakeDecodingArray()
+
+func decodeSeq(b []byte) string {
+	out := make([]byte, 0, len(b))
+	for _, c := range b {
+		out = append(out, c16DA[c]...)
+	}
+	return string(out)
 }
 
 type c16Out struct {
@@ -84,7 +97,7 @@ func c16Enc(data []byte, score bool) c16Out {
 	for {
 		select {
 		case r := <-ch:
-			o.recs = append(o.recs, c16Rec{ID: r.ID, Desc: r.Description, Seq: r.Decode().Seq, Idx: r.Idx, Score: r.Score, A: r.Count_A, C: r.Count_C, G: r.Count_G, T: r.Count_T})
+			o.recs = append(o.recs, c16Rec{ID: r.ID, Desc: r.Description, Seq: decodeSeq(r.Seq), Idx: r.Idx, Score: r.Score, A: r.Count_A, C: r.Count_C, G: r.Count_G, T: r.Count_T})
 		case e := <-cErr:
 			o.err = e
 			return o
@@ -99,7 +112,7 @@ func c16List(data []byte) c16Out {
 	var o c16Out
 	o.err = err
 	for _, r := range rs {
-		o.recs = append(o.recs, c16Rec{ID: r.ID, Desc: r.Description, Seq: r.Decode().Seq, Idx: r.Idx})
+		o.recs = append(o.recs, c16Rec{ID: r.ID, Desc: r.Description, Seq: decodeSeq(r.Seq), Idx: r.Idx})
 	}
 	return o
 }
@@ -189,6 +202,11 @@ func canonicalAlignment(r *fw.Rng) []gen.FastaRec {
 	if r.Chance(0.2) {
 		W = r.Range(61, 3000)
 	}
+	if r.Chance(0.03) {
+		// genomes longer than 64 KiB on a single line (still far below the readers' line limit)
+		W = r.Range(66000, 300000)
+		n = r.Range(1, 3)
+	}
 	var recs []gen.FastaRec
 	for i := 0; i < n; i++ {
 		id, desc := gen.MakeHeader(r, i)
@@ -220,6 +238,11 @@ func runC16(c *fw.Ctx, idx int) fw.Result {
 		var ref string
 		for li := 0; li < 4; li++ {
 			lo := layoutOpts{width: []int{0, 1, 60, 7, W, W + 3}[r.Intn(6)], lower: []float64{0, 0, 1, 0.4}[r.Intn(4)], crlf: r.Intn(3), noFinal: r.Chance(0.3)}
+			if W > 60000 {
+				// very long records: unwrapped, or wrapped at a realistic width (the plain
+				// reader concatenates strings per line, so tiny widths are quadratic)
+				lo.width = []int{0, 0, 70000, 1000}[r.Intn(4)]
+			}
 			if r.Chance(0.25) {
 				lo.blanks = r.Range(1, 4)
 			}
@@ -258,7 +281,13 @@ func runC16(c *fw.Ctx, idx int) fw.Result {
 				}
 				res.Count("records_compared", len(recs))
 			}
-			// fifth reader: identical variants output across layouts
+			// fifth reader: identical variants output across layouts (skipped for very long
+			// records: variants decodes the reference with a quadratic string concatenation)
+			if W > 60000 {
+				res.Sig("layout|long|" + feat + "|" + pattern)
+				res.Count("long_record_layouts", 1)
+				continue
+			}
 			vout, verr := c16Variants([]byte(text), recs[0].ID, len(degap(recs[0].Seq)))
 			res.Evals++
 			pattern += errStr(verr)[:1]
@@ -275,6 +304,9 @@ func runC16(c *fw.Ctx, idx int) fw.Result {
 		}
 	case "corrupt":
 		lo := layoutOpts{width: []int{0, 60, 7}[r.Intn(3)], crlf: r.Intn(2)}
+		if W > 60000 {
+			lo.width = []int{0, 1000}[r.Intn(2)]
+		}
 		text := layOut(r, recs, lo)
 		ck := []string{"truncate", "shortrec", "longrec", "foreign", "gt-only", "gt-space", "no-leading-gt", "empty", "lone-cr", "huge-line", "dup-header", "nul", "highbit", "only-newlines"}[r.Intn(14)]
 		mustErr := []bool{false, false, false, false} // per reader: an error is demanded by the property
@@ -352,7 +384,12 @@ func runC16(c *fw.Ctx, idx int) fw.Result {
 		}
 		c16Agreement(&res, outs, readers, files, "corrupt:"+ck)
 		refID := recs[0].ID
-		_, verr := c16Variants(data, refID, len(degap(recs[0].Seq)))
+		var verr error
+		if W <= 60000 {
+			_, verr = c16Variants(data, refID, len(degap(recs[0].Seq)))
+		} else {
+			verr = fmt.Errorf("skipped for very long records")
+		}
 		res.Evals++
 		pattern += errStr(verr)[:1]
 		if (ck == "no-leading-gt" || ck == "empty" || ck == "only-newlines") && verr == nil {
@@ -362,6 +399,9 @@ func runC16(c *fw.Ctx, idx int) fw.Result {
 		res.Sig("corrupt|" + ck + "|" + pattern)
 	default: // mutate
 		lo := layoutOpts{width: []int{0, 60, 7}[r.Intn(3)], crlf: r.Intn(3), lower: 0.2}
+		if W > 60000 {
+			lo.width = []int{0, 1000}[r.Intn(2)]
+		}
 		data := []byte(layOut(r, recs, lo))
 		nm := r.Range(1, 6)
 		ops := ""
@@ -403,7 +443,10 @@ func runC16(c *fw.Ctx, idx int) fw.Result {
 			pattern += errStr(o.err)[:1]
 		}
 		c16Agreement(&res, outs, readers, files, "mutate")
-		_, verr := c16Variants(data, recs[0].ID, len(degap(recs[0].Seq)))
+		var verr error
+		if W <= 60000 {
+			_, verr = c16Variants(data, recs[0].ID, len(degap(recs[0].Seq)))
+		}
 		res.Evals++
 		pattern += errStr(verr)[:1]
 		res.Count("mutated_inputs", 1)
